@@ -91,12 +91,31 @@ def build_tacd(release=False):
 
 def build_helper():
     hdir = os.path.join(VERIF, "helper")
+    if os.path.abspath(REPO) != "/repo":
+        # checks run against a scratch copy of the repository: vhelper must link THAT acme_common
+        import shutil
+        src = hdir
+        hdir = os.path.join(BUILD, "helper-src-%s" % hashlib.sha1(REPO.encode()).hexdigest()[:8])
+        shutil.rmtree(hdir, ignore_errors=True)
+        shutil.copytree(src, hdir, ignore=shutil.ignore_patterns("target", "Cargo.lock"))
+        ct = os.path.join(hdir, "Cargo.toml")
+        with open(ct) as f:
+            t = f.read()
+        with open(ct, "w") as f:
+            f.write(t.replace("/repo/acme_common", os.path.join(os.path.abspath(REPO), "acme_common")))
     lock_src = os.path.join(REPO, "Cargo.lock")
     lock_dst = os.path.join(hdir, "Cargo.lock")
     with Lock("cargo-helper"):
-        if not os.path.exists(lock_dst):
-            import shutil
+        # the helper resolves with the repository's CURRENT lock file (re-copied whenever it changes)
+        import shutil
+        with open(lock_src, "rb") as f:
+            want = hashlib.sha1(f.read()).hexdigest()
+        stamp = lock_dst + ".from"
+        have = open(stamp).read().strip() if os.path.exists(stamp) else None
+        if not os.path.exists(lock_dst) or have != want:
             shutil.copy(lock_src, lock_dst)
+            with open(stamp, "w") as f:
+                f.write(want)
         rc, out = run(["cargo", "build", "--offline"], cwd=hdir,
                       env=env_offline({"CARGO_TARGET_DIR": os.path.join(BUILD, "helper-target")}),
                       timeout=1800)
